@@ -111,6 +111,22 @@ def obs_key(cfg_key, obs):
     return hashlib.sha1((cfg_key + json.dumps(obs, sort_keys=True)).encode()).hexdigest()
 
 
+def obs_hash(obs):
+    return hashlib.sha1(json.dumps(obs, sort_keys=True).encode()).hexdigest()
+
+
+def compact_behaviours(out, cfg_keys):
+    """the behaviours TLC printed, with the observation history replaced by two digests (oh: of obs alone, ok:
+    obs_key with the scenario) -- hundreds of thousands of histories do not fit in memory as Python objects"""
+    beh = []
+    for b in tlc.iter_tagged(out, "BEH"):
+        b["oh"] = obs_hash(b["obs"])
+        b["ok"] = obs_key(cfg_keys[b["ci"] - 1], b["obs"])
+        del b["obs"]
+        beh.append(b)
+    return beh
+
+
 def mc_module(workdir, name, cfgs, prop, keep_obs=True):
     extra = (f'Beh == Finished => PrintT(<<"BEH", ToJson([ci |-> ci, script |-> script, obs |-> obs, '
              f'w |-> PropsOf("{prop}", CFG, obs)])>>)')
@@ -194,10 +210,11 @@ def run_family(prop, name, cfgs, rand_cfg, binary, seed, tier, tlc_workers=3, ra
     if not tlc.tlc_ok(rc, out):
         raise ToolError(f"TLC failed on model configuration {name}:\n" + tlc.error_excerpt(out, 60))
     gen, dist, depth = tlc.parse_stats(out)
-    beh = tlc.parse_tagged(out, "BEH")
-    res.update(tlc_s=dt, states=dist, transitions=gen, depth=depth, behaviours=len(beh))
     cfg_keys = [json.dumps(c, sort_keys=True) for c in cfgs]
     key_ix = {k: i for i, k in enumerate(cfg_keys)}
+    beh = compact_behaviours(out, cfg_keys)
+    del out
+    res.update(tlc_s=dt, states=dist, transitions=gen, depth=depth, behaviours=len(beh))
     # (a)(b)(c) the real code: replay every model behaviour, enumerate by DFS, random at larger bounds
     scen_file = os.path.join(wd, "scen.ndjson")
     with open(scen_file, "w") as f:
@@ -223,7 +240,7 @@ def run_family(prop, name, cfgs, rand_cfg, binary, seed, tier, tlc_workers=3, ra
     model_scripts = {}
     for b in beh:
         ck = cfg_keys[b["ci"] - 1]
-        verdict[obs_key(ck, b["obs"])] = b["w"]
+        verdict[b["ok"]] = b["w"]
         model_scripts[(b["ci"] - 1, json.dumps(b["script"]))] = b
     drift = []
     replayed = dfs_n = rand_n = 0
@@ -263,7 +280,7 @@ def run_family(prop, name, cfgs, rand_cfg, binary, seed, tier, tlc_workers=3, ra
             if rid.startswith(name + ".m"):
                 replayed += 1
                 b = beh[int(rid[len(name) + 2:])]
-                if r["obs"] != b["obs"] or r["script"] != b["script"]:
+                if obs_hash(r["obs"]) != b["oh"] or r["script"] != b["script"]:
                     drift.append(dict(kind="replay_differs", id=rid, script=b["script"]))
             elif rid.startswith(name + ".d"):
                 dfs_n += 1
@@ -272,7 +289,7 @@ def run_family(prop, name, cfgs, rand_cfg, binary, seed, tier, tlc_workers=3, ra
                 mb = model_scripts.get(sk)
                 if mb is None:
                     drift.append(dict(kind="code_behaviour_not_in_model", id=rid, script=r["script"]))
-                elif mb["obs"] != r["obs"]:
+                elif mb["oh"] != obs_hash(r["obs"]):
                     drift.append(dict(kind="dfs_obs_differs", id=rid, script=r["script"]))
             else:
                 rand_n += 1
@@ -359,7 +376,8 @@ def run_family_c20(name, cfgs, rand_cfg, binaries, seed, tier, tlc_workers=3, ra
     if not tlc.tlc_ok(rc, out):
         raise ToolError(f"TLC failed on model configuration {name}:\n" + tlc.error_excerpt(out, 60))
     gen, dist, depth = tlc.parse_stats(out)
-    beh = tlc.parse_tagged(out, "BEH")
+    beh = compact_behaviours(out, [json.dumps(c, sort_keys=True) for c in cfgs])
+    del out
     res.update(tlc_s=dt, states=dist, transitions=gen, depth=depth, behaviours=len(beh))
     scen_file = os.path.join(wd, "scen.ndjson")
     with open(scen_file, "w") as f:
@@ -390,7 +408,7 @@ def run_family_c20(name, cfgs, rand_cfg, binaries, seed, tier, tlc_workers=3, ra
             n += 1
             if rid.startswith(name + ".m"):
                 mb = beh[int(rid[len(name) + 2:])]
-                if a["obs"] != mb["obs"] or a["script"] != mb["script"]:
+                if obs_hash(a["obs"]) != mb["oh"] or a["script"] != mb["script"]:
                     drift.append(dict(kind="replay_differs", id=rid, script=mb["script"]))
             jout.write(json.dumps({"id": rid, "cfg": a["cfg"], "obs": a["obs"], "obs_b": b["obs"],
                                    "obs_c": c["obs"]}) + "\n")
